@@ -1,0 +1,7 @@
+//go:build !verif
+
+package engine
+
+func verifBeforeSend(int) {}
+
+func verifOnCollect(int) {}
